@@ -95,6 +95,8 @@ inline std::vector<size_t> all_noncyclic_or_sample(size_t n, Rng &rg, size_t max
 	}
 	return pi;
 }
+// a rotation with two neighbouring output positions exchanged: all but three cyclically adjacent pairs stay consecutive
+inline std::vector<size_t> near_rotation(size_t n, Rng &rg) { std::vector<size_t> p = rotation(n, rg.below(n)); size_t j = rg.below(n - 1); std::swap(p[j], p[j + 1]); return p; }
 inline std::string perm_str(const std::vector<size_t> &p) { std::string s; for (size_t i = 0; i < p.size(); i++) { if (i) s += ","; s += std::to_string(p[i]); } return s; }
 
 // ------------------------------------------------------------------ per-case accumulator + oracle (a)
